@@ -48,14 +48,49 @@ func fitOptLit(es []fitEnt, present bool) string {
 	return gal.OptionS(present, fitLit(es))
 }
 
-// layout classes of tools.CalcImageOffset
+// layout classes of tools.CalcImageOffset: Kind is the probe whose answer is the mapped region of
+// the property text (the descriptor's BIOS region whenever the image has a descriptor, the FMAP
+// COREBOOT area for an image without descriptor, the whole image when there is neither).
 type layout struct {
 	Kind string `json:"kind"` // "ifd" | "coreboot" | "bios" | "none"
 	Off  uint32 `json:"off"`  // BIOS region / COREBOOT area offset
 	Size uint32 `json:"size"` // its size
+	// what the harness ALSO wrote into the image: a flash map beside the descriptor (a full
+	// coreboot image), with a COREBOOT area [Off, Off+Size) that may end anywhere, or a flash
+	// map that has no COREBOOT area at all
+	Fmap     *fmapArea `json:"fmap_coreboot_area_beside,omitempty"`
+	FmapNoCB bool      `json:"fmap_without_coreboot_area,omitempty"`
+}
+
+// the answers of all three probes for images on which more than one answers (Model/IBB.v
+// probes / probe_layout: the order in which CalcImageOffset asks them is the model's);
+// the classic single-probe literal otherwise
+// kind for the case statistics
+func (l layout) kind() string {
+	switch {
+	case l.Fmap != nil:
+		return l.Kind + "+fmap"
+	case l.FmapNoCB:
+		return l.Kind + "+fmap-no-coreboot-area"
+	}
+	return l.Kind
 }
 
 func (l layout) lit() string {
+	if l.Fmap != nil || l.FmapNoCB {
+		ifd, fm := "None", "None"
+		if l.Kind == "ifd" {
+			ifd = fmt.Sprintf("(Some (%d, %d))", l.Off, l.Size)
+		}
+		if l.Fmap != nil {
+			fm = fmt.Sprintf("(Some (%d, %d))", l.Fmap.Off, l.Fmap.Size)
+		} else if l.Kind == "coreboot" {
+			fm = fmt.Sprintf("(Some (%d, %d))", l.Off, l.Size)
+		}
+		// every image the harness builds parses as a bare BIOS region (no firmware volume
+		// signature that does not parse); the answer matters only when the other two are None
+		return fmt.Sprintf("(probe_layout (mkPR %s %s %s))", ifd, fm, gal.Bool(l.Kind != "none"))
+	}
 	switch l.Kind {
 	case "ifd":
 		return fmt.Sprintf("(LIFD %d %d)", l.Off, l.Size)
@@ -202,8 +237,9 @@ func cbfsLit(fs []cbfsFile) string {
 }
 
 type fmapArea struct {
-	Name      string
-	Off, Size uint32
+	Name string `json:"name"`
+	Off  uint32 `json:"off"`
+	Size uint32 `json:"size"`
 }
 
 func putFMAP(img []byte, at int, areas []fmapArea) {
